@@ -43,11 +43,22 @@ def seeds_for(pid):
     return out
 
 
+def benign_for(pid):
+    """behaviour-preserving refactorings recorded for this property's area: the check must stay silent on them"""
+    out = []
+    for d in sorted(glob.glob(os.path.join(VERIF, "benign", pid + "-*"))):
+        pf = os.path.join(d, "patch.diff")
+        if os.path.exists(pf):
+            out.append({"seed": "benign/" + os.path.basename(d), "rule": None, "patch": pf, "benign": True})
+    return out
+
+
 def run(pid, max_seeds=None):
     """-> (results list, lost count). Never touches /repo."""
     seeds = seeds_for(pid)
     if max_seeds:
         seeds = seeds[:max_seeds]
+    seeds = seeds + benign_for(pid)
     results = []
     if not seeds:
         return results, 0
@@ -75,9 +86,14 @@ def run(pid, max_seeds=None):
                                     cwd=VERIF, env=env, stdout=subprocess.PIPE, stderr=subprocess.STDOUT, text=True)
                 rules = re.findall(r"rule=([A-Z][A-Z0-9-]*) instance=(\S+)", pr.stdout)
                 viol = "VIOLATION property=%s" % pid in pr.stdout
-                hit = viol and any(ru == s["rule"] for ru, _ in rules)
-                r.update(status="detected" if hit else "lost", reported=sorted({k for _, k in rules})[:6],
-                         nested_exit=pr.returncode, wall_s=round(time.time() - t0, 1))
+                if s.get("benign"):
+                    hit = not viol          # a behaviour-preserving change must not be reported
+                    r.update(status="silent" if hit else "false-alarm", reported=sorted({k for _, k in rules})[:6],
+                             nested_exit=pr.returncode, wall_s=round(time.time() - t0, 1))
+                else:
+                    hit = viol and any(ru == s["rule"] for ru, _ in rules)
+                    r.update(status="detected" if hit else "lost", reported=sorted({k for _, k in rules})[:6],
+                             nested_exit=pr.returncode, wall_s=round(time.time() - t0, 1))
                 if pr.returncode == 2 and not viol:
                     r.update(status="skipped", why="the patched scratch copy could not be analysed: "
                              + pr.stdout.strip().splitlines()[-1][:160] if pr.stdout.strip() else "no output")
